@@ -31,9 +31,10 @@ def run(ctx):
     combos = [c + (1,) for c in combos] + [(pl, pr, od, "none", nl) for pl in ("root", "helper", "kept", "datafn", "feeds_keep")
                                              for pr in ("datafn", "keep") for od in ("before", "earlier") for nl in (2, 3)]
     for rep in range(reps):
-        for (placement, producer, order, reuse, nloads) in combos:
+        for ci_, (placement, producer, order, reuse, nloads) in enumerate(combos):
             w, meta = progs.gen_load_world(rng, placement, producer, order, reuse, nloads=nloads)
-            store_kind = ["memory", "local", "local_lru"][(rep + len(placement) + len(order)) % 3]
+            # (every order of load and producer meets every kind of store: the index of the combination and the seed turn the wheel)
+            store_kind = ["memory", "local", "local_lru"][(rep + ci_ + ci_ // 4 + ctx.get("seed", 0)) % 3]
             entry = {"kind": "eval", "fun": "f0"} if rng.random() < 0.5 else {"kind": "keep", "fun": "f0", "path": "/top"}
             prod_entry = {"kind": "direct", "fun": "fp"} if producer == "datafn" else {"kind": "keep", "fun": "fp", "path": "/prod"}
             with pipeline.Session(store_kind, tag="c09") as s:
@@ -92,6 +93,14 @@ def run(ctx):
                     elif kept_reader and reader_name not in r3["log"]:
                         bad = "the kept reader %s was not re-evaluated although /prod serves a different result (executed %s)" % (reader_name, r3["log"])
                     case["source_after"] = progs.render_world(w2, "extmod")
+                    if bad is None:
+                        # right after the edit (before any revert brings the first keys back): a separate load of every path kept so far
+                        for pth, want in sorted(s.ref_paths.items()):
+                            got = s.load(pth)
+                            res.count("standalone_loads_after_edit")
+                            if got["error"] is not None or pipeline.norm_ext(got["value"]) != pipeline.norm_ext(want):
+                                bad = "after the producer changed a separate dds.load(%r) gives %s, the value most recently kept there is %r" % (pth, got, want)
+                                break
                     if bad is None:
                         # an unrelated change: the reader is served again
                         w3 = copy.deepcopy(w2)
